@@ -3,6 +3,7 @@
 package c04
 
 import (
+	"time"
 	"context"
 	"fmt"
 	"runtime"
@@ -196,6 +197,13 @@ var cancelledCtx = func() context.Context {
 	return c
 }()
 
+// expiredCtx ended by its deadline (Err() is DeadlineExceeded, not Canceled).
+var expiredCtx = func() context.Context {
+	c, cancel := context.WithDeadline(context.Background(), time.Unix(1, 0))
+	_ = cancel
+	return c
+}()
+
 type vkey struct{}
 
 // pubCancels: event id -> cancel function of the context it was published
@@ -205,6 +213,9 @@ var pubCancels sync.Map
 func publish(bus *eventbus.EventBus, t, id int, cancelled, useCtx bool, viaAny ...bool) {
 	var ctx context.Context
 	switch {
+	case cancelled && id%2 == 1:
+		// ended by a deadline instead of a cancel call: just as dead
+		ctx = expiredCtx
 	case cancelled:
 		ctx = cancelledCtx
 	case useCtx:
